@@ -405,17 +405,10 @@ def observeO (x : O) (xs : List Rat) : Json :=
 
 /-! ### fractional delays -/
 
-def ratTrunc (k : Rat) : Int := if k < 0 then -((-k).floor) else k.floor
-
 def getFTerm (j : Json) : Except String (Rat × Rat) := do
   match ← getArr j with
   | [a, b] => pure (← getRat a, ← getRat b)
   | _ => throw "expected [power, coeff]"
-
-/-- the terms in `terms()` order (ascending powers) with `left = int(k)`, `w = k - left` -/
-def fterms (l : List (Rat × Rat)) : List (FTerm Rat) :=
-  let sorted := l.mergeSort (fun a b => a.1 ≤ b.1)
-  sorted.map fun kv => ⟨ratTrunc kv.1, kv.1 - (ratTrunc kv.1 : Int), kv.2⟩
 
 def handle (entry : String) (j : Json) : Except String Json := do
   let xs ← getList getRat (fieldD j "xs" (Json.arr []))
@@ -501,7 +494,7 @@ def handle (entry : String) (j : Json) : Except String Json := do
     let num ← getList getFTerm (← field j "num")
     let den ← getList getFTerm (← field j "den")
     let m := exceptJ (fun g => Json.mkObj [("num", polyJ (sortAsc g.num)), ("den", polyJ (sortAsc g.den))])
-      (linearizeF (fterms num) (fterms den))
+      (linearizeQ num den)
     -- the weights of one term add up to one: the coefficient sums (the gain at z = 1) are kept
     let sum (l : List (Rat × Rat)) : Rat := l.foldl (fun a kv => a + kv.2) 0
     pure <| Json.mkObj [("model", m), ("spec", Json.mkObj [("sum_num", ratToJson (sum num)), ("sum_den", ratToJson (sum den))])]
